@@ -1202,6 +1202,10 @@ class PathLossMetisPS7(PathLossIndoorBase):
         pl_dB : float | np.ndarray
             Path loss in dB.
         """
+        if isinstance(num_walls, np.ndarray) and num_walls.ndim == 0:
+            # A single number of walls given as a 0-d array
+            num_walls = num_walls.item()
+
         if isinstance(num_walls, Iterable):
             assert isinstance(d, np.ndarray)
             # Code for num_walls array. Since num_walls is an array then
